@@ -46,10 +46,20 @@ class C11(Check):
     tables = ['router']
     design_ref = '6/C11'
     anchors = ['ombott/router/radidict.py', 'ombott/router/radirouter.py', 'ombott/ombott.py']
-    level_text = ('Lean model of RadiDict.remove/_try_merge/add_hooks, RadiRouter.remove/add_hook/remove_hook/'
-                  '__getitem__ and the hook invocation of Ombott.handler, tied to the code by differential runs of '
-                  'whole edit histories with probes after the edits; theorems: see evidence.')
-    level_note_extra = 'hooks at or below a removed prefix* are unspecified by the property and excluded'
+    level_text = ('Lean theorems over the model of RadiDict.remove/_try_merge/add_hooks, RadiRouter.add/remove/add_hook/'
+                  'remove_hook/__getitem__ and the hook invocation of Ombott.handler: removal (exact, prefix*, hooks '
+                  'only, with pruning and merging) keeps the tree well formed and erases exactly its zone of routes / '
+                  'hook pairs (remove_wf, remove_denote), add_hooks adds exactly the pair (addHooks_denote); after every '
+                  'edit history the tree holds exactly the routes index, no name outlives its route, tree hooks = hooks '
+                  'index outside removed prefixes (router_refines_maps), and the calls act on the three index maps as '
+                  'the finite-map spec (edits_on_maps); two histories leaving the same maps answer every path, name and '
+                  'rule lookup alike (history_eq_fresh) and the hooks delivered are exactly the pairs at the prefixes of '
+                  'the matched pattern, outermost first, with the matched prefix length (hooks_fire_exactly). Model tied '
+                  'to the code by differential runs of whole edit histories (random + exhaustive small scope with state '
+                  'merging). By correspondence only: that registering the survivors on an empty router reproduces the '
+                  'maps (the rebuilt router of the oracle), the 404 payload, rex selectors.')
+    level_note_extra = ('hooks at or below a removed prefix* are unspecified by the property and excluded; '
+                        'rebuild-from-survivors step (OPEN rebuild_same_survivors) by correspondence only')
     rule = ('edit histories (up to 40 of add / overwrite / rejected add / remove(rule) / remove(name) / '
             'remove(prefix*) / add_hook simple+partial / remove_hook) over rule universes with shared and split '
             'literal prefixes, wildcard siblings, filter clashes and hook-only prefixes, probed at random points '
@@ -61,13 +71,15 @@ class C11(Check):
                    'hooks at or below a removed `prefix*` are unspecified (the property specifies routes only)',
                    'rex selectors (which rewrite the path and with it hook positions) are covered by '
                    'correspondence only, not by the fresh-router oracle',
-                   're matching of the filter masks is taken from the running interpreter']
+                   're matching of the filter masks is taken from the running interpreter',
+                   'theorems: no filter answers with a rex selector (NoSel); history_eq_fresh takes the second history '
+                   '(e.g. the plain registration of the survivors) with the hypothesis that it leaves the same three maps']
 
     def __init__(self):
         self.stats = {}
 
     def budget(self, tier, escalated):
-        n = 420 if tier == 'quick' else 6000
+        n = 320 if tier == 'quick' else 6000
         return n * (2 if escalated and tier == 'quick' else 1)
 
     def nontrivial(self, sample):
